@@ -3,10 +3,26 @@
 import json, os
 HERE = os.path.dirname(os.path.dirname(os.path.abspath(__file__)))
 CHECKS = {
+ "C01": dict(
+  text="Bounded symbolic model checking of the real rule evaluator (DetectionRule.detect and every Conditions subclass) on condition trees parsed from text by the real Parser: for each enumerated tree (22 quick / ~150 thorough; not/and/or/groups/cds/minimum/minscore over 2 profiles) the evaluation at a gene with 2 neighbours is executed on symbolic gene coordinates, cutoff, record length, hit presence (booleans) and bitscores (reals), and z3 must answer unsat for path /\\ not(documented formula) for met, the reason profiles and the anchoring decision; distance-at-cutoff and across-origin cases are solver-chosen.",
+  note="Trees are enumerated (the programs axis is sampled, inputs are symbolic). Details.in_range is explored as a function summary (same code). 3 genes, 2 profiles; minscore inside cds() is outside the documented grammar and not claimed.",
+  ref="3/C01"),
+ "C03": dict(
+  text="Bounded symbolic model checking of find_protoclusters and its helpers (_extend_area_location, apply_extenders, remove_redundant_protoclusters, merge_over_origin) on <= 3 (quick) / 4 (thorough) anchoring genes with symbolic coordinates, cutoff, neighbourhood and record length, linear and circular, incl. an origin-spanning gene; spec: same protocluster iff chained by ring distance < cutoff (unrolled closure), every anchor in exactly one core, core = connect-hull, extent = core +- neighbourhood clipped/wrapped; plus a two-rule harness for SUPERIORS with EXTENDERS.",
+  note="On a ring the grouping clauses are claimed while every chain group fits in an arc shorter than half the record (C04/C07 wording); cutoff and neighbourhood <= 3x record length (linearised modulus); HMMER hit generation and apply_cluster_rules are covered by C01/C07, not here.",
+  ref="3/C03"),
  "C04": dict(
   text="Bounded symbolic model checking of the real secmet.locations / Record location helpers: every feasible path of each function is executed on unbounded symbolic integer coordinates and a symbolic record length, and z3 must answer unsat for pre /\\ path /\\ not(set-of-bases spec) on every path, plus a coverage certificate per explored subtree. Bounds: <= 3 (quick) / 4 (thorough) locations per call, <= 3 parts per location, offsets in (-n, n), extension distance <= n.",
   note="Trusted: z3, CPython int/str round trip, the Biopython ExactPosition shim (identity on symbolic ints) and SimpleLocation.__len__ shim; more than 4 locations / 3 parts, fuzzy positions and mixed-strand compounds are outside the claim.",
   ref="3/C04"),
+ "C06": dict(
+  text="Bounded symbolic model checking of Record.create_regions / add_region / Region.__init__ on <= 3 (quick, plus one 4-area linear class) / 4 (thorough) areas (subregions and single-protocluster candidate clusters, simple or origin-spanning) with symbolic coordinates: creation never raises, regions are pairwise disjoint, two areas share a region iff linked by a chain of overlaps (unrolled closure), each region covers exactly the union of its component, numbering follows order; plus all add/clear/create histories of length <= 3 (quick) / 4 (thorough) checked for stale parent links.",
+  note="Areas are subregions or candidate clusters with one protocluster (a multi-protocluster candidate still has one span); longer histories and more areas are outside the claim.",
+  ref="3/C06"),
+ "C08": dict(
+  text="Bounded symbolic model checking of Record.get_cds_features_within_location (G <= 3 quick / 4 thorough genes incl. nested, equal-start, spliced and origin-crossing genes; simple and origin-spanning queries; with_overlapping both) against the containment / shares-a-base spec per gene, and of the add_cds_feature / add_protocluster / add_subregion / create_regions interleavings (6 quick / 60 thorough orders) against 'each area lists exactly the genes it contains and each gene points to its region'.",
+  note="Coordinates and record length are unbounded symbolic ints; gene count, exon count (<= 2) and number of areas are bounded as stated.",
+  ref="3/C08"),
 }
 NOT_APPLICABLE = {
  "C18": "parallel_function is a thin wrapper over multiprocessing.Pool.starmap_async and pickle (C code) plus OS scheduling; there is nothing of antiSMASH to execute symbolically, and a stub honouring Pool's documented contract would make the property true by assumption",
